@@ -24,6 +24,7 @@ Frozen parameters (repaired in /repo a845d9f: before, any parameter with require
 LM.step raise in update_parameter): the witnesses of that defect are directed regression cases, both parameter
 orders and both optimizers; a recurrence is a VIOLATION (tie: raise-disagreement; oracle: frozen-raises)."""
 import io, contextlib, math, random, json
+import math
 from ..common import *
 from .. import lie
 
@@ -538,6 +539,19 @@ def oracle(pp, torch, spec, rec=None):
     name = spec['opt']
     frozen = any(not p['req'] for p in spec['params'])
     if rec['raised'] is not None and rec['raised'] != 'scripted':
+        fin = rec.get('final') or []
+        nonfinite = any(not math.isfinite(v) for q in fin for v in q)
+        # a log-scale step beyond the exponent range also leaves a scale of exactly 0 (underflow): not a group element
+        for q, pspec in zip(fin, spec['params']):
+            if pspec.get('kind') == 'G' and pspec.get('g') in (2, 3):
+                w = 5 if pspec['g'] == 2 else 8
+                if any(q[i] <= 0.0 for i in range(w - 1, len(q), w)):
+                    nonfinite = True
+        if nonfinite and rec.get('solves'):
+            # a (numerically singular) system made the solver answer with a step so large that the retraction overflows
+            # (e.g. exp of a log-scale step of 3e3); what raises is the loss evaluation at the resulting non-finite
+            # parameters.  The step handed to update_parameter IS the solver's answer: outside the property's quantifier.
+            return None
         if frozen:
             return 'frozen-raises: %s.step raised %s with requires_grad=False on parameter(s) %r' % (
                 name, rec['raised'], [j for j, p in enumerate(spec['params']) if not p['req']])
